@@ -20,11 +20,15 @@ import (
 	"fmt"
 	"os"
 	"path/filepath"
+	"sort"
+	"strings"
 	"testing"
 
 	"github.com/tucats/ego/internal/caches"
 	"github.com/tucats/ego/internal/cli/settings"
 	"github.com/tucats/ego/internal/defs"
+	"github.com/tucats/ego/internal/language/data"
+	"github.com/tucats/ego/internal/language/symbols"
 	egostrings "github.com/tucats/ego/internal/util/strings"
 	"golang.org/x/crypto/bcrypt"
 )
@@ -37,7 +41,10 @@ type c25User struct {
 }
 
 type c25Step struct {
-	Op   string `json:"op"` // "" = login; "change" = replace the stored credential of user (fmt, pw)
+	// "" = login; "change" = replace the stored credential of user (fmt, pw); "setuser" = the SetUser builtin
+	// (name, plaintext password pw, perms); "deluser" = the DeleteUser builtin
+	Op    string   `json:"op"`
+	Perms []string `json:"perms"`
 	User string `json:"user"`
 	Pass string `json:"pass"`
 	Fmt  string `json:"fmt"`
@@ -54,6 +61,7 @@ type c25Scenario struct {
 type c25StepOut struct {
 	Ok     bool              `json:"ok"`
 	Stored map[string]string `json:"stored"`
+	Names  []string          `json:"names,omitempty"` // all stored user names (after setuser / deluser steps)
 }
 
 type c25Out struct {
@@ -103,6 +111,17 @@ func c25Classes(svc userIOService, current map[string]string) map[string]string 
 			res[name] = "other:" + hex.EncodeToString([]byte(pw))
 		}
 	}
+
+	return res
+}
+
+func c25Names(svc userIOService) []string {
+	res := []string{}
+	for name := range svc.ListUsers(true) {
+		res = append(res, name)
+	}
+
+	sort.Strings(res)
 
 	return res
 }
@@ -189,6 +208,40 @@ func TestVerifC25(t *testing.T) {
 
 		// The auth cache is live during the steps, exactly as in a running server: nothing is purged.
 		for _, st := range sc.Steps {
+			if st.Op == "setuser" || st.Op == "deluser" {
+				// the server's own create / delete path (admin handlers and Ego builtins): names are lower-cased there
+				name := c25Unhex(st.User)
+				syms := symbols.NewSymbolTable("verif c25")
+				syms.SetAlways(defs.SessionVariable, 1)
+
+				var err error
+
+				if st.Op == "setuser" {
+					perms := []any{}
+					for _, p := range st.Perms {
+						perms = append(perms, p)
+					}
+
+					args := data.NewMap(data.StringType, data.InterfaceType).
+						SetAlways("name", name).
+						SetAlways("password", c25Unhex(st.Pw)).
+						SetAlways("permissions", perms)
+					_, err = SetUser(syms, data.NewList(args))
+
+					// from now on "same" means: whatever SetUser stored (a cost-12 bcrypt hash)
+					if pw, found := c25Stored(svc, strings.ToLower(name)); found {
+						seeded[strings.ToLower(name)] = pw
+					}
+				} else {
+					_, err = DeleteUser(syms, data.NewList(name))
+					delete(seeded, strings.ToLower(name))
+				}
+
+				o.Steps = append(o.Steps, c25StepOut{Ok: err == nil, Stored: c25Classes(svc, seeded), Names: c25Names(svc)})
+
+				continue
+			}
+
 			if st.Op == "change" {
 				// what the admin handlers do: read the record, replace the credential, write it back
 				name := c25Unhex(st.User)
